@@ -342,6 +342,31 @@ func flStall(prop string) {
 	w.check(2, K, prop)
 }
 
+// family "stallcut": as "stall", with the victim's stall point case-split as a shape variable
+// (after exactly `cut` of its shared accesses). Everything else (which held slice is recycled,
+// stale fields, payloads) stays symbolic. This trades the solver-chosen stall point for depth:
+// adversaries of 6-7 operations are out of reach of the fully symbolic family.
+func flStallCut(prop string) {
+	n := vfShape("slots", 2, flMaxN)
+	free := vfShape("free", 1, n)
+	K := vfShape("advops", 1, flMaxOps)
+	cut := vfShape("cut", 0, 48)
+	w := flSetup(n, free)
+	vfShared(w.mem, flStride)
+	vfShared(w.ghost, flStride)
+	vfSpawnCut(func() { w.step(0, 0, w.views[0]) }, cut)
+	vfSpawnAtomic(func() {
+		for k := 0; k < K; k++ {
+			w.step(1, k, w.views[1])
+		}
+	})
+	vfJoin()
+	w.check(2, K, prop)
+}
+
+func H_C01_stallcut() { flStallCut("C01") }
+func H_C02_stallcut() { flStallCut("C02") }
+
 // family "sym": T threads x k symbolic operations each.
 func flSym(prop string) {
 	n := vfShape("slots", 2, flMaxN)
